@@ -430,12 +430,18 @@ def c03_r5(ctx: Ctx, rule):
         if not ok:
             res.fail(rule.id, "model::%s" % ob, "src/prov/identifier.py:0", "identifier.py no longer computes %s (%s)" % (ob, detail),
                      "the URI or the printed form of every qualified name changes")
-    for q, what in (("prov.identifier.QualifiedName.__hash__", "hash"), ("prov.identifier.Identifier.__eq__", "eq"), ("prov.identifier.Identifier.__hash__", "hash")):
+    seen_q = set()
+    for cls, meth, what in (("prov.identifier.QualifiedName", "__hash__", "hash"), ("prov.identifier.Identifier", "__eq__", "eq"), ("prov.identifier.Identifier", "__hash__", "hash"), ("prov.identifier.QualifiedName", "__eq__", "eq")):
+        q = ctx.p.lookup_method(cls, meth)
+        if q is None:
+            raise AnalysisError("anchor vanished: %s.%s is not defined anywhere in the class hierarchy" % (cls, meth))
+        if q in seen_q:
+            continue
+        seen_q.add(q)
         fi = ctx.fn(q)
         attrs = {n.attr for n in walk_function(fi.node) if isinstance(n, ast.Attribute) and isinstance(n.value, ast.Name) and n.value.id in fi.params}
         proj = {a.lstrip("_") for a in attrs} - {"class__"}
         proj = {a for a in proj if a not in ("__class__",)}
-        allowed = {"uri"} if what == "eq" or q.endswith("QualifiedName.__hash__") else {"uri", "_class__", "class__"}
         bad = {a for a in attrs if a.lstrip("_") not in ("uri",) and a != "__class__"}
         res.ob("%s projects on %s" % (short(q) if q.count(".") > 2 else q, sorted(attrs)))
         if bad or not any(a.lstrip("_") == "uri" for a in attrs):
@@ -551,6 +557,113 @@ def c03_r8(ctx: Ctx, rule):
     return res
 
 
+
+def kind_separation(ctx: Ctx, rule):
+    """An xsd:anyURI value (Identifier) and a qualified name (QualifiedName) with the same URI are different values of different
+    kinds (JSON: xsd:anyURI vs prov:QUALIFIED_NAME).  Identifier.__eq__ compares the URI only, so what keeps the two apart as
+    members of attribute-value sets and as keys of the kind tables (PROV_BASE_CLS ...) is that they never hash alike:
+    either equality itself separates the classes, or the two classes' hash functions differ (one mixes the class in)."""
+    res = RuleResult()
+    ID, QNAME = "prov.identifier.Identifier", "prov.identifier.QualifiedName"
+    eq_i, eq_q = ctx.p.lookup_method(ID, "__eq__"), ctx.p.lookup_method(QNAME, "__eq__")
+    h_i, h_q = ctx.p.lookup_method(ID, "__hash__"), ctx.p.lookup_method(QNAME, "__hash__")
+    if not (eq_i and eq_q and h_i and h_q):
+        raise AnalysisError("anchor vanished: Identifier/QualifiedName __eq__/__hash__")
+
+    def mentions_class(q):
+        fi = ctx.fn(q)
+        for n in walk_function(fi.node):
+            if isinstance(n, ast.Attribute) and n.attr == "__class__":
+                return True
+            if isinstance(n, ast.Call) and call_name(n) == "type" and len(n.args) == 1:
+                return True
+        return False
+
+    def hash_expr(q):
+        fi = ctx.fn(q)
+        rets = [n.value for n in walk_function(fi.node) if isinstance(n, ast.Return) and n.value is not None]
+        return sorted(norm(resolve_local(fi.node, r)) for r in rets)
+
+    # `isinstance(other, Identifier)` alone does not separate a subclass from its base; an explicit class comparison does
+    eq_separates = any(isinstance(n, ast.Compare) and ("__class__" in norm(n) or "type(" in norm(n)) for q in {eq_i, eq_q} for n in walk_function(ctx.fn(q).node))
+    same_fn = h_i == h_q
+    hi, hq = hash_expr(h_i), hash_expr(h_q)
+    if same_fn:
+        hash_separates = mentions_class(h_i)
+        how = "one hash function for both classes (%s); mixes the class in: %s" % (short(h_i), hash_separates)
+    else:
+        hash_separates = hi != hq or mentions_class(h_i) or mentions_class(h_q)
+        how = "Identifier hashes %s, QualifiedName hashes %s" % (hi, hq)
+    ok = eq_separates or hash_separates
+    res.ob("Identifier vs QualifiedName of one URI: equality separates the classes: %s; %s" % (eq_separates, how))
+    res.ob("kind tables keyed by qualified names and attribute-value sets rely on that separation: %s" % ("kept" if ok else "LOST"))
+    if not ok:
+        res.fail(rule.id, "kinds-collapse::Identifier~QualifiedName", ctx.loc(h_q, ctx.fn(h_q).node),
+                 "an xsd:anyURI Identifier and a QualifiedName with the same URI compare equal and now hash alike (%s): they collapse in attribute-value sets and match each other in the kind tables" % how,
+                 "entity with ex:p = Identifier('http://example.org/x') and ex:p = ex:x keeps one value; agent typed Identifier('http://www.w3.org/ns/prov#Person') is written as <prov:person> and reloads with a qualified-name type")
+    return res
+
+
+for _p, _r, _d in (("C05", "C05.R8", "every supplied attribute value is stored: values of different kinds with one URI do not collapse in the per-attribute set"),
+                   ("C08", "C08.R7", "the merged record carries the union of the values: an anyURI value and a qualified name of one URI stay two values"),
+                   ("C02", "C02.R8", "the PROV-XML writer's `value in PROV_BASE_CLS` test matches qualified names only, never an xsd:anyURI value of the same URI"),
+                   ("C10", "C10.R8", "an xsd:anyURI prov:type is not written as a subtype element (kind tables match qualified names only)"),
+                   ("C11", "C11.R9", "loading never drops a value: a qualified name and an xsd:anyURI of one IRI listed for one attribute stay two values"),
+                   ("C04", "C04.R8", "value identity: Identifier and QualifiedName of one URI stay distinct set members (the content-equivalence of records counts both)")):
+    RULES.setdefault(_p, []).append(Rule(_r, "value kinds stay apart: Identifier and QualifiedName of one URI never hash alike unless equality separates them", 2, kind_separation, "F-BOOL", _d))
+
+
+def c18_r9(ctx: Ctx, rule):
+    """The default namespace lives in two places - the `_default` field and the manager's own "" entry - and lookup by full
+    URI compacts through the dict's values only.  Every non-None store to the field must be accompanied, on every normal
+    path through the same method, by a store of the "" entry (before or after)."""
+    res = RuleResult()
+    ft, owned, default = manager_fields(ctx)
+    from .paths import get_cfg, node_of
+
+    def is_empty_key(k):
+        try:
+            v = ctx.f.eval(k, M, {})
+        except Exception:
+            v = None
+        return (isinstance(k, ast.Constant) and k.value == "") or v == ""
+
+    n_sites = 0
+    for mname, q in sorted(ctx.p.classes[NSM].methods.items()):
+        fi = ctx.fn(q)
+        stores = [n for n in walk_function(fi.node) if isinstance(n, ast.Assign) and any(isinstance(t, ast.Attribute) and norm(t.value) == "self" and t.attr in default for t in n.targets)
+                  and not (isinstance(n.value, ast.Constant) and n.value.value is None)]
+        if not stores:
+            continue
+        entry_stores = [n for n in walk_function(fi.node) if isinstance(n, ast.Assign) and any(isinstance(t, ast.Subscript) and norm(t.value) == "self" and is_empty_key(t.slice) for t in n.targets)]
+        g = get_cfg(ctx, q)
+        for st in stores:
+            n_sites += 1
+            if any(st is e for e in entry_stores):
+                res.ob("%s: %s stores the field and the \"\" entry in one statement" % (short(q), norm(st)[:60]))
+                continue
+            sn = node_of(g, st)
+            enodes = {x.id for e in entry_stores for x in g.node_containing(e)}
+            dom = g.dominators(labels_excluded=("exc", "raise"))
+            before = bool(dom.get(sn.id, set()) & enodes)
+            # after: no normal path from the store to the normal exit that avoids every entry store
+            escapes = g.exists_path(sn, g.exit, avoid=lambda m: m.id in enodes, labels_excluded=("exc", "raise"))
+            ok = before or not escapes
+            res.ob("%s: `%s` is accompanied by a store of self[\"\"] on every normal path: %s" % (short(q), norm(st)[:50], ok))
+            if not ok:
+                res.fail(rule.id, "default-without-entry::%s" % q, ctx.loc(q, st),
+                         "%s sets the default namespace (`%s`) but can return without writing the manager's own \"\" entry: the URI-compaction loop over self.values() never sees that namespace" % (short(q), norm(st)[:50]),
+                         "d = ProvDocument(); d.update(doc_with_default_namespace); d.get_record('<full URI of a record>') returns [] while d.records holds it (same after PROV-XML deserialisation)")
+    if not n_sites:
+        raise AnalysisError("no store to the default-namespace field found in NamespaceManager")
+    return res
+
+
+RULES.setdefault("C18", []).append(Rule("C18.R9", "the default namespace is always entered in the table that full-URI lookup walks: every store to the default field is paired with a store of the \"\" entry", 2, c18_r9, "F-PATH",
+                                        "get_record(<full URI>) finds records named in a default namespace however that namespace arrived"))
+RULES.setdefault("C03", []).append(Rule("C03.R10", "the default namespace is always entered in the prefix table (shared with C18.R9)", 2, c18_r9, "F-PATH",
+                                        "a full URI in the default namespace compacts to the same name in every history"))
+
 RULES.setdefault("C18", []).append(Rule("C18.R7", "URI compaction walks the whole prefix table (shared with C03.R8)", 1, c03_r8, "F-PATH",
                                         "lookup by full URI reaches the same index key as lookup by qualified name"))
 RULES.setdefault("C09", []).append(Rule("C09.R6", "re-homing preserves the URI (shared with C03.R3)", 5, c03_r3, "F-OWN",
@@ -603,3 +716,80 @@ def field_names_of(ctx: Ctx):
 
 RULES.setdefault("C18", []).append(Rule("C18.R8", "a 'prefix:local' lookup string resolves through the registered prefix before the renamed-prefix memo (shared with C03.R7)", 1, c03_r7, "F-PATH",
                                         "get_record('p:x') denotes the URI the container's own declaration of p gives"))
+
+
+def c03_r11(ctx: Ctx, rule):
+    """Namespace identity is exact: __eq__/__ne__/__hash__ use the URI and the prefix as they are (no case folding, no normalisation),
+    so two namespaces whose URIs differ at all are never taken for one another by the manager's `==` / `in` tests."""
+    res = RuleResult()
+    NS_ = "prov.identifier.Namespace"
+    for m in ("__eq__", "__hash__", "__ne__"):
+        q = ctx.p.lookup_method(NS_, m)
+        if q is None:
+            if m == "__ne__":
+                continue
+            raise AnalysisError("anchor vanished: %s.%s" % (NS_, m))
+        seen_fields, wrapped = set(), []
+        for q2 in ctx.helper_closure(q, 2):
+            f2 = ctx.fn(q2)
+            if not f2.cls or f2.cls != NS_:
+                continue
+            for n in walk_function(f2.node):
+                if isinstance(n, ast.Attribute) and n.attr.lstrip("_") in ("uri", "prefix") and isinstance(n.value, ast.Name):
+                    seen_fields.add(n.attr.lstrip("_"))
+                if isinstance(n, ast.Call) and isinstance(n.func, ast.Attribute) and isinstance(n.func.value, ast.Attribute) and n.func.value.attr.lstrip("_") in ("uri", "prefix"):
+                    wrapped.append(norm(n))
+                if isinstance(n, ast.Call) and isinstance(n.func, ast.Name) and n.func.id not in ("hash", "isinstance", "tuple", "type") and any(isinstance(a, ast.Attribute) and a.attr.lstrip("_") in ("uri", "prefix") for a in n.args):
+                    wrapped.append(norm(n))
+        ok = {"uri", "prefix"} <= seen_fields and not wrapped
+        res.ob("Namespace.%s uses %s untransformed: %s" % (m, sorted(seen_fields), ok))
+        if not ok:
+            res.fail(rule.id, "namespace-identity-inexact::%s" % m, ctx.loc(q, ctx.fn(q).node),
+                     "Namespace.%s %s" % (m, ("transforms its fields: %s" % ", ".join(wrapped[:3])) if wrapped else "does not use both uri and prefix (%s)" % sorted(seen_fields)),
+                     "namespaces http://example.org/Data/ and http://example.org/data/ under one prefix: valid_qualified_name re-homes a name of the first into the second (another URI)")
+    return res
+
+
+RULES.setdefault("C03", []).append(Rule("C03.R11", "Namespace equality and hash are exact on (uri, prefix)", 2, c03_r11, "F-BOOL",
+                                        "the manager's `==` / `in` tests on namespaces never equate two different URIs"))
+RULES.setdefault("C01", []).append(Rule("C01.R11", "the printed form of a qualified name is prefix:localpart, unescaped (shared with C03.R5): the JSON writer prints names with str()", 10, c03_r5, "F-BOOL",
+                                        "names written to JSON are the names the reader resolves"))
+RULES.setdefault("C10", []).append(Rule("C10.R9", "re-homing preserves the URI (shared with C03.R3): a name is printed under a prefix its own container binds to that name's namespace", 5, c03_r3, "F-OWN",
+                                        "an independent reader resolving the emitted prefix blocks recovers the in-memory URI"))
+RULES.setdefault("C11", []).append(Rule("C11.R11", "re-homing preserves the URI (shared with C03.R3)", 5, c03_r3, "F-OWN",
+                                        "a name loaded under an inner rebinding of a prefix keeps its URI through re-serialisation"))
+RULES.setdefault("C06", []).append(Rule("C06.R9", "a prefix that is already bound - the built-in prov/xsd/xsi included - is never rebound (shared with C03.R2): PROV-N hard-codes xsd: for datatypes", 2, c03_r2, "F-PATH",
+                                        "the xsd: the PROV-N writer prints for %% xsd:double etc. always denotes XML Schema"))
+
+
+def c18_r10(ctx: Ctx, rule):
+    """ProvBundle.add_namespace is a pure delegate: every normal path through it calls the manager's add_namespace, which is where
+    an alias prefix for an already known URI is recorded (the renamed-prefix memo).  A shortcut that returns the known namespace
+    skips that bookkeeping and later 'alias:local' lookups fail."""
+    res = RuleResult()
+    q = BUNDLE + ".add_namespace"
+    fi = ctx.fn(q)
+    g = get_cfg(ctx, q)
+    calls = [c for c in calls_in(fi.node) if call_name(c) == "add_namespace" and isinstance(c.func, ast.Attribute) and "namespaces" in norm(c.func.value)]
+    if not calls:
+        # delegated through a helper of the same class?
+        for q2 in ctx.helper_closure(q, 1)[1:]:
+            calls += [c for c in calls_in(fi.node) if call_name(c) == q2.rsplit(".", 1)[1]]
+    if not calls:
+        raise AnalysisError("ProvBundle.add_namespace does not call the manager's add_namespace")
+    cn = {n.id for c in calls for n in g.node_containing(c)}
+    escapes = g.exists_path(g.entry, g.exit, avoid=lambda m: m.id in cn, labels_excluded=("exc", "raise"))
+    res.ob("ProvBundle.add_namespace: %d delegating call(s); every normal path passes through one: %s" % (len(calls), not escapes))
+    if escapes:
+        path = g.find_path(g.entry, g.exit, avoid=lambda m: m.id in cn, labels_excluded=("exc", "raise")) or []
+        where = next((n.stmt for n, _ in reversed(path) if n.stmt is not None), fi.node)
+        res.fail(rule.id, "add_namespace-bypasses-manager", ctx.loc(q, where),
+                 "ProvBundle.add_namespace can return (`%s`) without calling the manager's add_namespace: a second prefix for a known URI is never recorded" % norm(where)[:50],
+                 "d.add_namespace('ex', U); d.entity('ex:e1'); d.add_namespace('alias', U); d.get_record('alias:e1') returns [] while the other spellings find the record")
+    return res
+
+
+RULES.setdefault("C18", []).append(Rule("C18.R10", "ProvBundle.add_namespace always reaches the manager's add_namespace (no shortcut return)", 1, c18_r10, "F-PATH",
+                                        "every declared prefix, aliases of known URIs included, resolves in lookups"))
+RULES.setdefault("C03", []).append(Rule("C03.R12", "ProvBundle.add_namespace always reaches the manager's add_namespace (shared with C18.R10)", 1, c18_r10, "F-PATH",
+                                        "every declared prefix resolves to the URI it was declared for"))
